@@ -131,6 +131,10 @@ class Pseudo2NetCDF:
             typecode = pvar.typecode()
         except Exception:
             typecode = pvar[...].dtype.char
+            if typecode == 'S':
+                # character variables of a netCDF source: 'S' alone would
+                # be a zero-length string type
+                typecode = 'c'
 
         create_variable_kwds = self.create_variable_kwds.copy()
         if hasattr(pvar, 'missing_value'):
